@@ -147,8 +147,13 @@ Num txs: {"unknown" if self.txs is None else len(self.txs)}
         h256 = hash256(self.serialize())
         # interpret this hash as a little-endian number
         proof = little_endian_to_int(h256)
+        # bits that encode a negative or overflowing target never satisfy proof of work
+        try:
+            target = self.target()
+        except ValueError:
+            return False
         # return whether this integer is at most the target (consensus: hash <= target)
-        return proof <= self.target()
+        return proof <= target
 
     def validate_merkle_root(self):
         """Gets the merkle root of the tx_hashes and checks that it's
